@@ -7,6 +7,7 @@ CONSTANTS
   Merge = "grid"
   Sep = "each"
   Dedup = "seen"
+  Width = "widest"
   MaxSpecial = 1
   FullCells = 0
   MaxRepeat = 2
